@@ -82,12 +82,12 @@ func init() {
 			// argument identities of Add(ckptID, db.sstables, prevWAL, db.seqNum)
 			var prev types.Object
 			var prevPos, rotPos token.Pos
-			ast.Inspect(f.Decl.Body, func(nd ast.Node) bool {
+			inspect(f.Decl.Body, func(nd ast.Node) bool {
 				as, ok := nd.(*ast.AssignStmt)
 				if !ok || len(as.Lhs) != 1 || len(as.Rhs) != 1 {
 					return true
 				}
-				if as.Tok == token.DEFINE && prog.SelField(info, as.Rhs[0]) == walF {
+				if _, isLocal := as.Lhs[0].(*ast.Ident); isLocal && prog.SelField(info, as.Rhs[0]) == walF {
 					prev, prevPos = prog.IdentObj(info, as.Lhs[0]), as.Pos()
 				}
 				if prog.SelField(info, as.Lhs[0]) == walF {
@@ -103,7 +103,7 @@ func init() {
 			if rotPos == token.NoPos {
 				r.Fail(f.Name()+":rotate-store", f.Decl.Pos(), nil, "the writer returned by Rotate is not stored in db.wal: later writes would go to the sealed writer")
 			}
-			ast.Inspect(f.Decl.Body, func(nd ast.Node) bool {
+			inspect(f.Decl.Body, func(nd ast.Node) bool {
 				call, ok := nd.(*ast.CallExpr)
 				if !ok || r.P.CalleeFunc(info, call) != add || len(call.Args) != 4 {
 					return true
@@ -158,7 +158,7 @@ func init() {
 				r.Fail(name+":shape", lit.Pos(), nil, "the asynchronous part must call prevWAL.Save, checkpoints.Save and return the handle with a nil error")
 			}
 			// the handle literal: CheckpointID is the parameter, URI is Save's result
-			ast.Inspect(lit.Body, func(nd ast.Node) bool {
+			inspect(lit.Body, func(nd ast.Node) bool {
 				ret, ok := nd.(*ast.ReturnStmt)
 				if !ok || len(ret.Results) != 2 {
 					return true
@@ -207,7 +207,7 @@ func init() {
 			active := r.P.Field("dkv/wal", "Writer", "activeBuffer")
 			info := f.Pkg.TypesInfo
 			carried := 0
-			ast.Inspect(f.Decl.Body, func(nd ast.Node) bool {
+			inspect(f.Decl.Body, func(nd ast.Node) bool {
 				cl, ok := nd.(*ast.CompositeLit)
 				if !ok || info.TypeOf(cl) != segT.Type() {
 					return true
@@ -257,7 +257,7 @@ func init() {
 			}
 			// the next writer continues the sequence watermark
 			okLSN := false
-			ast.Inspect(f.Decl.Body, func(nd ast.Node) bool {
+			inspect(f.Decl.Body, func(nd ast.Node) bool {
 				if as, ok := nd.(*ast.AssignStmt); ok && len(as.Lhs) == 1 && len(as.Rhs) == 1 {
 					if prog.SelField(info, as.Lhs[0]) == lsnW && prog.SelField(info, as.Rhs[0]) == lsnW {
 						okLSN = true
@@ -280,51 +280,73 @@ func init() {
 			var cond ast.Expr
 			var idxVar types.Object
 			var loop *ast.RangeStmt
-			ast.Inspect(f.Decl.Body, func(nd ast.Node) bool {
-				rs, ok := nd.(*ast.RangeStmt)
-				if !ok || prog.SelField(info, rs.X) != sealed {
-					return true
-				}
-				loop = rs
-				ast.Inspect(rs.Body, func(m ast.Node) bool {
-					if is, ok := m.(*ast.IfStmt); ok && exprUsesField(info, is.Cond, lsnSeg) {
-						cond = is.Cond
-						for _, st := range is.Body.List {
-							if as, ok := st.(*ast.AssignStmt); ok && len(as.Lhs) == 1 {
-								idxVar = prog.IdentObj(info, as.Lhs[0])
+			segName := ""
+			viaIndexFunc := false
+			inspect(f.Decl.Body, func(nd ast.Node) bool {
+				switch x := nd.(type) {
+				case *ast.RangeStmt:
+					if prog.SelField(info, x.X) != sealed {
+						return true
+					}
+					loop = x
+					if id, ok := x.Value.(*ast.Ident); ok {
+						segName = id.Name
+					}
+					inspect(x.Body, func(m ast.Node) bool {
+						if is, ok := m.(*ast.IfStmt); ok && exprUsesField(info, is.Cond, lsnSeg) {
+							cond = is.Cond
+							for _, st := range is.Body.List {
+								if as, ok := st.(*ast.AssignStmt); ok && len(as.Lhs) == 1 {
+									idxVar = prog.IdentObj(info, as.Lhs[0])
+								}
 							}
 						}
+						return true
+					})
+				case *ast.AssignStmt:
+					// idx := slices.IndexFunc(w.sealedBuffers, func(seg) bool { return seg.latestSeqNum > seqNum })
+					if len(x.Lhs) != 1 || len(x.Rhs) != 1 {
+						return true
 					}
-					return true
-				})
+					c, ok := isCallToNamed(info, x.Rhs[0], "slices", "IndexFunc")
+					if !ok || len(c.Args) != 2 || prog.SelField(info, c.Args[0]) != sealed {
+						return true
+					}
+					lit, ok := ast.Unparen(c.Args[1]).(*ast.FuncLit)
+					if !ok || len(lit.Body.List) != 1 || len(lit.Type.Params.List) != 1 || len(lit.Type.Params.List[0].Names) != 1 {
+						return true
+					}
+					if ret, ok := lit.Body.List[0].(*ast.ReturnStmt); ok && len(ret.Results) == 1 {
+						cond, idxVar, viaIndexFunc = ret.Results[0], prog.IdentObj(info, x.Lhs[0]), true
+						segName = lit.Type.Params.List[0].Names[0].Name
+					}
+				}
 				return true
 			})
-			if loop == nil || cond == nil || idxVar == nil {
+			if (loop == nil && !viaIndexFunc) || cond == nil || idxVar == nil {
 				r.Error("undecided: Truncate no longer selects the first segment to keep with a loop over sealedBuffers")
 				return
 			}
-			var segName string
-			if id, ok := loop.Value.(*ast.Ident); ok {
-				segName = id.Name
-			}
 			r.orderDomExpr(info, cond, f.Name()+":keep-condition", map[string]string{segName + ".latestSeqNum": "seg", "seqNum": "flushed"}, nil,
 				func(e odEnv) orderdom.Value { return orderdom.Bool(e.Rank["seg"] > e.Rank["flushed"]) }, "segment.latestSeqNum > flushed seqNum")
-			// forward scan with break, and the kept suffix starts AT the index
-			if _, dir := rangeSource(info, loop.X); dir != dirForward {
-				r.Fail(f.Name()+":scan-direction", loop.Pos(), nil, "Truncate must scan the segments oldest first to find the first one to keep")
-			}
-			hasBreak := false
-			ast.Inspect(loop.Body, func(m ast.Node) bool {
-				if b, ok := m.(*ast.BranchStmt); ok && b.Tok == token.BREAK {
-					hasBreak = true
+			if !viaIndexFunc {
+				// forward scan with break, and the kept suffix starts AT the index
+				if _, dir := rangeSource(info, loop.X); dir != dirForward {
+					r.Fail(f.Name()+":scan-direction", loop.Pos(), nil, "Truncate must scan the segments oldest first to find the first one to keep")
 				}
-				return true
-			})
-			if !hasBreak {
-				r.Fail(f.Name()+":first-match", loop.Pos(), nil, "Truncate must stop at the FIRST segment above the flushed sequence number (no break: it would keep only from the last such segment on)")
+				hasBreak := false
+				inspect(loop.Body, func(m ast.Node) bool {
+					if b, ok := m.(*ast.BranchStmt); ok && b.Tok == token.BREAK {
+						hasBreak = true
+					}
+					return true
+				})
+				if !hasBreak {
+					r.Fail(f.Name()+":first-match", loop.Pos(), nil, "Truncate must stop at the FIRST segment above the flushed sequence number (no break: it would keep only from the last such segment on)")
+				}
 			}
 			okSlice := false
-			ast.Inspect(f.Decl.Body, func(nd ast.Node) bool {
+			inspect(f.Decl.Body, func(nd ast.Node) bool {
 				as, ok := nd.(*ast.AssignStmt)
 				if !ok || len(as.Lhs) != 1 || prog.SelField(info, as.Lhs[0]) != sealed {
 					return true
@@ -349,7 +371,7 @@ func init() {
 			active := r.P.Field("dkv/wal", "Writer", "activeBuffer")
 			ci := cut.Pkg.TypesInfo
 			stamped, appended := token.NoPos, token.NoPos
-			ast.Inspect(cut.Decl.Body, func(nd ast.Node) bool {
+			inspect(cut.Decl.Body, func(nd ast.Node) bool {
 				as, ok := nd.(*ast.AssignStmt)
 				if !ok || len(as.Lhs) != 1 || len(as.Rhs) != 1 {
 					return true
@@ -370,7 +392,7 @@ func init() {
 			for _, n := range []string{"(*Writer).Put", "(*Writer).Delete"} {
 				w := r.P.Func("dkv/wal", n)
 				ok := false
-				ast.Inspect(w.Decl.Body, func(nd ast.Node) bool {
+				inspect(w.Decl.Body, func(nd ast.Node) bool {
 					if as, isAs := nd.(*ast.AssignStmt); isAs && len(as.Lhs) == 1 && prog.SelField(w.Pkg.TypesInfo, as.Lhs[0]) == lsnW {
 						if r.isParam(w, as.Rhs[0], w.Obj.Type().(*types.Signature).Params().Len()-1) {
 							ok = true
@@ -389,7 +411,7 @@ func init() {
 			handle := r.P.FuncObj("dkv/wal", "(*Writer).Handle")
 			lsn := r.P.Field("dkv/sst", "LevelList", "LatestSeqNum")
 			found := false
-			ast.Inspect(add.Decl.Body, func(nd ast.Node) bool {
+			inspect(add.Decl.Body, func(nd ast.Node) bool {
 				call, ok := nd.(*ast.CallExpr)
 				if !ok || r.P.CalleeFunc(ai, call) != handle || len(call.Args) != 1 {
 					return true
@@ -412,7 +434,7 @@ func init() {
 			h := r.P.Func("dkv/wal", "(*Writer).Handle")
 			afterF := r.P.Field("dkv/wal", "Handle", "After")
 			okAfter := false
-			ast.Inspect(h.Decl.Body, func(nd ast.Node) bool {
+			inspect(h.Decl.Body, func(nd ast.Node) bool {
 				if kv, ok := nd.(*ast.KeyValueExpr); ok {
 					if id, ok := kv.Key.(*ast.Ident); ok && h.Pkg.TypesInfo.Uses[id] == types.Object(afterF) && r.isParam(h, kv.Value, 0) {
 						okAfter = true
@@ -466,7 +488,7 @@ func init() {
 			// levels slice is a clone
 			var fresh types.Object
 			cloned := false
-			ast.Inspect(nw.Decl.Body, func(nd ast.Node) bool {
+			inspect(nw.Decl.Body, func(nd ast.Node) bool {
 				as, ok := nd.(*ast.AssignStmt)
 				if !ok || as.Tok != token.DEFINE || len(as.Lhs) != 1 || len(as.Rhs) != 1 {
 					return true
@@ -485,7 +507,7 @@ func init() {
 			if !cloned || fresh == nil {
 				r.Fail(nw.Name()+":clone", nw.Decl.Pos(), nil, "NewWithChangeSet does not build a fresh LevelList over slices.Clone(ll.levels): applying the change set would mutate level lists held by checkpoints and readers")
 			}
-			ast.Inspect(nw.Decl.Body, func(nd ast.Node) bool {
+			inspect(nw.Decl.Body, func(nd ast.Node) bool {
 				call, ok := nd.(*ast.CallExpr)
 				if !ok {
 					return true
@@ -588,7 +610,7 @@ func init() {
 			rot := r.P.Func("dkv/wal", "(*Writer).Rotate")
 			info := rot.Pkg.TypesInfo
 			okCAS := false
-			ast.Inspect(rot.Decl.Body, func(nd ast.Node) bool {
+			inspect(rot.Decl.Body, func(nd ast.Node) bool {
 				call, ok := nd.(*ast.CallExpr)
 				if !ok {
 					return true
@@ -613,7 +635,7 @@ func (r *Run) checkWALYield(all *prog.FuncInfo, lit *ast.FuncLit, loop ast.Stmt)
 	entryT := r.P.TypeName("dkv/wal", "Entry")
 	kF, vF, dF := r.P.Field("dkv/wal", "Entry", "K"), r.P.Field("dkv/wal", "Entry", "V"), r.P.Field("dkv/wal", "Entry", "Deleted")
 	nDel, nPut := 0, 0
-	ast.Inspect(loop, func(nd ast.Node) bool {
+	inspect(loop, func(nd ast.Node) bool {
 		cl, ok := nd.(*ast.CompositeLit)
 		if !ok || info.TypeOf(cl) != entryT.Type() || len(cl.Elts) == 0 {
 			return true
@@ -671,7 +693,7 @@ func (r *Run) checkSkipCount(all *prog.FuncInfo, lit *ast.FuncLit, loop ast.Stmt
 	}
 	// expected: +1*startAfter -1*first +1
 	var firstName string
-	ast.Inspect(lit.Body, func(nd ast.Node) bool {
+	inspect(lit.Body, func(nd ast.Node) bool {
 		if a, ok := nd.(*ast.AssignStmt); ok && len(a.Rhs) == 1 && a.Pos() < loop.Pos() {
 			if call, ok := ast.Unparen(a.Rhs[0]).(*ast.CallExpr); ok && fieldToken(r.P.CalleeFunc(info, call)) == "U64" && firstName == "" {
 				if id, ok := a.Lhs[0].(*ast.Ident); ok {
@@ -683,7 +705,7 @@ func (r *Run) checkSkipCount(all *prog.FuncInfo, lit *ast.FuncLit, loop ast.Stmt
 	})
 	want := map[string]int{"": 1, firstName: -1}
 	var saName string
-	ast.Inspect(count, func(nd ast.Node) bool {
+	inspect(count, func(nd ast.Node) bool {
 		if sel, ok := nd.(*ast.SelectorExpr); ok && prog.SelField(info, sel) == startAfter {
 			saName = types.ExprString(sel)
 		}
@@ -708,7 +730,7 @@ func (r *Run) checkSkipCount(all *prog.FuncInfo, lit *ast.FuncLit, loop ast.Stmt
 	// cursor rewound to 0 after peeking the first sequence number
 	move := r.P.FuncObj("dkv/storage", "(*Cursor).Move")
 	rewound := false
-	ast.Inspect(lit.Body, func(nd ast.Node) bool {
+	inspect(lit.Body, func(nd ast.Node) bool {
 		if call, ok := nd.(*ast.CallExpr); ok && r.P.CalleeFunc(info, call) == move && call.Pos() < loop.Pos() && len(call.Args) == 1 {
 			if tv, ok := info.Types[call.Args[0]]; ok && tv.Value != nil && tv.Value.String() == "0" {
 				rewound = true
